@@ -22,7 +22,7 @@ RULE = ('cases are key-management histories of 5-16 steps over 2-3 keys whose cr
         'unlocked, copy, re-imported, foreign); distinct = distinct (step kinds, creation-time spellings)')
 TIERS = {'quick': {'runs': 3000, 'budget_s': 80}, 'thorough': {'runs': 150000, 'budget_s': 1500}}
 PROBES = ('foreign_mpi_bit_count_rounded_up', 'created_boundary', 'created_non_utc_aware', 'created_naive', 'form_private', 'form_twin', 'form_protected', 'form_unlocked',
-          'form_copy', 'form_reimported', 'form_foreign', 'issuer_checked', 'recipient_checked', 'foreign_leading_zero_mpi', 'subkey_created_differs')
+          'form_copy', 'form_reimported', 'form_foreign', 'issuer_checked', 'recipient_checked', 'foreign_leading_zero_mpi', 'subkey_created_differs', 'third_party_issuer_checked')
 WEIGHTS = {'add_subkey': 3.0, 'protect': 1.5, 'export_import': 2.0, 'copy_key': 1.5, 'derive_pub': 1.0, 'tick': 1.0, 'add_uid': 0.7,
            'recertify': 0.5, 'del_uid': 0.2, 'certify_other': 0.3, 'direct_other': 0.2, 'rebind_subkey': 0.5}
 TIMES = [0, 1, 86399, 951782400, 1_400_000_000, 1_600_000_000, 2 ** 31 - 1, 2 ** 31, 2 ** 32 - 1]
@@ -115,13 +115,39 @@ def check_fp(ctx, what, obj, form, seen, history, mk=None):
     history['subs'] = subset
 
 
-def check_ids_written(ctx, what, pgpy, key):
+def check_ids_written(ctx, what, pgpy, key, other=None):
     """issuer / issuer fingerprint / recipient ids in what the key emits"""
     C = pgpy.constants
     tk = bridge.ref_tkey(bytes(key))
     comps = {tk.pub.keyid: tk.pub}
     for c in tk.subkeys:
         comps[c.key.keyid] = c.key
+    if other is not None and other is not key and not key.is_public and key.is_unlocked:
+        # signatures over somebody else's key (a certification, a designated revoker's key revocation, a subkey revocation): they
+        # are issued by this key's primary, whatever they are about; none of them is attached anywhere
+        opub = other if other.is_public else other.pubkey
+        made = []
+        for label, fn in (('key revocation over another key', lambda: key.revoke(opub)),
+                          ('certification of another key\'s user id', lambda: key.certify(opub.userids[0]) if opub.userids else None),
+                          ('direct-key signature over another key', lambda: key.certify(opub)),
+                          ('revocation of another key\'s subkey', lambda: key.revoke(list(opub.subkeys.values())[0]) if opub.subkeys else None)):
+            try:
+                sg = fn()
+            except Exception:
+                sg = None
+            if sg is not None:
+                made.append((label, sg))
+        for label, sg in made:
+            ctx.probe('third_party_issuer_checked')
+            ctx.checked()
+            rs = bridge.ref_sig(bytes(sg))
+            if rs.issuer is not None and rs.issuer != tk.pub.keyid:
+                ctx.viol('C18:third-party-issuer-id', '%s: a %s names key id %s as Issuer, the signing key\'s id is %s'
+                         % (what, label, rs.issuer.hex(), tk.pub.keyid.hex()))
+            if rs.issuer_fpr is not None and rs.issuer_fpr != tk.pub.fingerprint:
+                ctx.viol('C18:third-party-issuer-fingerprint', '%s: a %s carries an Issuer Fingerprint that is not the signing key\'s' % (what, label))
+            if rs.issuer is not None and sg.signer != rs.issuer.hex().upper():
+                ctx.viol('C18:issuer-attribute-mismatch', '%s: PGPSignature.signer of a %s differs from its Issuer subpacket' % (what, label))
     if not key.is_public and key.is_unlocked:
         try:
             sig = key.sign('fingerprint probe')
@@ -211,7 +237,7 @@ def execute(case, ctx):
                 check_fp(ctx, '%s unlocked after %s' % (name, step['op']), k, 'unlocked', seen, hist, mk)
                 check_ids_written(ctx, '%s (unlocked)' % name, pgpy, k)
         else:
-            check_ids_written(ctx, '%s after %s' % (name, step['op']), pgpy, k)
+            check_ids_written(ctx, '%s after %s' % (name, step['op']), pgpy, k, other=h.priv.get(step.get('other')))
     # keys produced by an independent encoder
     for i, f in enumerate(cfg.get('foreign', [])):
         ctx.step = 'foreign%d' % i
